@@ -475,7 +475,8 @@ fn sc_m(name: &str, cap: usize, n_rx: u8, threads: Vec<BThread>, pb: (Option<usi
         name: format!("spmc_broadcast/{}", shape),
         component: "spmc_broadcast".into(),
         shape,
-        props: if mix != 0 { vec!["C07", "C05", "C06", "C09"] } else if asyn { vec!["C07", "C06", "C09"] } else { vec!["C07", "C05", "C09"] },
+        // C02 ("every channel") covers the broadcast flavour too: its order oracle is the per-receiver sequence check
+        props: if mix != 0 { vec!["C07", "C02", "C05", "C06", "C09"] } else if asyn { vec!["C07", "C02", "C06", "C09"] } else { vec!["C07", "C02", "C05", "C09"] },
         threads: threads.len(),
         ops: threads.iter().map(|t| t.steps.len()).max().unwrap_or(0),
         cap: cap.to_string(),
